@@ -154,6 +154,7 @@ PURE_NAMES = {
 }
 
 
+SIGNED_TYS = {"i8", "i16", "i32", "i64", "i128", "isize"}
 _O, _R = "std::option::Option", "std::result::Result"
 COMBINATORS = {
     "std::option::Option::map": (_O, "Some", "None", "map"),
@@ -179,6 +180,7 @@ class Walker:
         self.effect_of = lambda callee, args, state, walker: None   # -> name or None
         self.no_inline = lambda defp: False
         self.custom_model = lambda cn, callee, args, st, walker: None
+        self.on_loop = None
         self.results = []
         self.steps = 0
         self.stats = {"paths": 0, "inlined": 0, "opaque": {}, "effects": 0, "max_depth_hits": 0, "blocks": 0}
@@ -259,6 +261,8 @@ class Walker:
                             if r2 == pl[1] and (p2[:len(pl[2])] == pl[2] or pl[2][:len(p2)] == p2):
                                 del st.heap[hk]
                 st.trace.append(("loop", self._site_str(key), pre, body.defp))
+                if self.on_loop is not None:
+                    self.on_loop(st, fr, self._site_str(key), pre)
             blk = body.blocks[bb]
             for s in blk["stmts"]:
                 self._stmt(st, fr, s)
@@ -502,7 +506,12 @@ class Walker:
     def _operand(self, st, fr, o):
         k = o["k"]
         if k in ("copy", "move"):
-            return self._read(st, self._place(st, fr, o["place"]))
+            v = self._read(st, self._place(st, fr, o["place"]))
+            pj = o["place"]
+            ty = pj["p"][-1].get("ty") if pj["p"] and pj["p"][-1]["k"] == "field" else (fr.body.locals[pj["l"]]["ty"] if not pj["p"] else None)
+            if ty in SIGNED_TYS and isinstance(v, tuple) and v[0] in ("havoc", "param", "field", "call", "eff", "index", "cindex", "mut", "upd", "unwrap_or"):
+                return ("signed", v)
+            return v
         if k == "const":
             if "fn" in o:
                 return ("fn", o["fn"]["path"])
@@ -538,6 +547,8 @@ class Walker:
             if op == "Not" and is_int(a) and a[1] in (0, 1):
                 return Int(1 - a[1])
             if op == "PtrMetadata":
+                if isinstance(a, tuple) and a[0] == "call" and a[1].endswith("str::as_bytes") and len(a[2]) == 1:
+                    return ("strlen", a[2][0])
                 return ("len", a)
             return ("un", op, a)
         if k == "discr":
@@ -915,6 +926,11 @@ class Walker:
                 (lambda s, x=x: s.facts.assume_variant(x, pos), TRUE),
                 (lambda s, x=x: s.facts.assume_variant(x, neg), FALSE),
             ])
+        if cn in ("core::str::len", "std::str::len", "str::len") or (name == "len" and callee["path"].startswith("core::str::") and len(args) == 1):
+            a = args[0]
+            if isinstance(a, tuple) and a[0] == "str":
+                return ("val", Int(len(a[1].encode("utf-8"))))
+            return ("val", ("strlen", a))
         # --- arithmetic helpers
         if name in ("min", "max") and len(args) == 2 and (tr == "std::cmp::Ord" or cn in ("std::cmp::min", "std::cmp::max")):
             a, b = args
